@@ -143,6 +143,10 @@ w("//@   requires " + P.format(i="index"))
 w("//@   ensures nohole: result.2 == nil && result.0 != nil ==> wfbox(result.0) && okIdx(tokens, index, result.1)")
 w("//@   ensures stop: result.2 == nil && result.0 == nil ==> result.1 == index && (tokens[index].TokenType == END || tokens[index].TokenType == ELSE)")
 w("")
+w("//@ pred procEnd(t Int) := t == SET || t == THEN || t == IF || t == ELSE || t == END || t == DEBUG || t == RETURN || t == LOOP || t == BREAK || t == CONTINUE")
+w("//@ func isProcessExprEnd [C08 C15]")
+w("//@   ensures table: result == procEnd(tokenType)")
+w("")
 w("//@ func getProcessExpressionTokens [C08 C15]")
 w("//@   noframe")
 w("//@   requires " + P.format(i="index"))
@@ -150,6 +154,7 @@ w("//@   ensures index: index <= result.1 && result.1 < len(tokens)")
 w("//@   ensures nonnil: forall k :: { result.0[k] } 0 <= k && k < len(result.0) ==> result.0[k] != nil")
 w("//@   ensures nonempty: len(result.0) > 0 ==> result.1 > index")
 w("//@   ensures filtered: forall k :: { result.0[k] } 0 <= k && k < len(result.0) ==> !ign(result.0[k].TokenType) [C15]")
+w("//@   ensures stop: procEnd(tokens[result.1].TokenType) || tokens[result.1].TokenType == EOF [C15]")
 w("//@   loop 1 invariant index <= token_index && token_index < len(tokens) && tokWf(tokens) && fresh(exprTokens) && (len(exprTokens) > 0 ==> token_index > index)")
 w("//@   loop 1 invariant forall k :: { exprTokens[k] } 0 <= k && k < len(exprTokens) ==> exprTokens[k] != nil")
 w("//@   loop 1 invariant filtered: forall k :: { exprTokens[k] } 0 <= k && k < len(exprTokens) ==> !ign(exprTokens[k].TokenType) [C15]")
@@ -164,7 +169,7 @@ w("//@   ensures nohole: result.2 == nil ==> wfbox(result.0)")
 w("//@   ensures index: result.2 == nil ==> index < result.1 && result.1 <= len(tokens)")
 w("//@   loop 1 invariant index < token_index && token_index <= len(tokens) && wfbox(lhs)")
 w("")
-w("//@ func parse [C08 C15]")
+w("//@ func parse [C08 C15 C13]")
 w("//@   noframe")
 w("//@   sigreads [C15]")
 w("//@   requires tokWf(tokens)")
@@ -172,6 +177,9 @@ w("//@   ensures nohole: result.1 == nil ==> forall k :: { result.0[k] } 0 <= k 
 w("//@   loop 1 invariant 0 <= token_index && token_index < len(tokens)")
 w("//@   loop 1 invariant forall k :: { commands[k] } 0 <= k && k < len(commands) ==> wfbox(commands[k])")
 w("//@   loop 1 decreases len(tokens) - token_index")
+# C13: the numbering of regex groups starts at zero for every source, whatever was compiled before
+# (the counter is a package-level variable, see D23): the first command is parsed with the counter at zero
+w("//@   loop 1 invariant numbering: token_index == 0 ==> capture_group_number == 0 [C13]")
 print("\n".join(out))
 
 # ---- regex literal sub-parser (parser_regexp.go) ----
